@@ -311,7 +311,7 @@ def explore_shard(args):
 # ------------------------------------------------------------------ (c) one live mapper: results and copies are values
 MW = 32
 MREGS = ("r", "s")
-MRANGES = ((0, 32), (0, 8), (8, 16))
+MRANGES = ((0, 32), (0, 8), (8, 16), (0, 1), (1, 2))
 
 
 def m_envs():
@@ -356,9 +356,10 @@ def m_snapshot_mapper(m, E, R, envs):
 
 
 def m_run(hist):
-    """replay hist on a fresh mapper; after every step every previously obtained result (expressions read from the
-    mapper, copies of the mapper, copies of its memory) must still denote what it denoted when it was obtained.
-    returns (failure or None, number of invariant evaluations)"""
+    """replay hist on a fresh mapper; after every step (C13) every previously obtained result (expressions read from
+    the mapper, copies of the mapper, copies of its memory) must still denote what it denoted when it was obtained, and
+    (C12) every register value must have the register's width and, if composite, parts that tile it exactly.
+    returns (list of (pid, sig, what), number of invariant evaluations)"""
     from amoco.cas import expressions as E
     from amoco.cas.mapper import mapper
     R = {n: E.reg(n, MW) for n in ("r", "s", "p", "t")}
@@ -366,6 +367,7 @@ def m_run(hist):
     m = mapper()
     kept = []      # (description, object, kind, fingerprint when obtained)
     n = 0
+    out = []
     for k, op in enumerate(hist):
         try:
             if op[0] == "w":
@@ -391,7 +393,23 @@ def m_run(hist):
                 c.setmemory(m.mmap.copy())
                 kept.append(("copy of m.mmap after step %d" % k, c, "mapper", m_snapshot_mapper(c, E, R, envs)))
         except Exception as ex:
-            return None, n      # raising operations are C01/C17 business
+            return out, n      # raising operations are C01/C17 business
+        if op[0] == "w":
+            n += 1
+            try:
+                v = m[R[op[1]]]
+                msg = None
+                if v.size != MW:
+                    msg = ("size", "has size %s" % v.size)
+                else:
+                    t = bv.comps_ok(v)
+                    if t:
+                        msg = ("tiling", t)
+            except Exception as ex:
+                msg = ("tiling", "reading it raised %r" % (ex,))
+            if msg and not any(o[0] == "C12" for o in out):
+                out.append(("C12", ("live-mapper", msg[0], "w%d:%d" % (op[2], op[3])),
+                            "history %r: after step %d %r the value of register %s %s" % (hist, k, op, op[1], msg[1])))
         for (desc, obj, kind, f0) in kept:
             n += 1
             try:
@@ -399,14 +417,16 @@ def m_run(hist):
             except Exception as ex:
                 f1 = ("broken", type(ex).__name__)
             if f1 != f0:
-                return (("live-mapper", kind, op[0], "after:" + desc.split(" ")[0].split("(")[0]),
-                        "history %r: the %s changed when step %d %r was applied to the mapper it came from: %r -> %r (now %s)" % (
-                            hist, desc, k, op, f0, f1, str(obj).replace("\n", "; ")[:160])), n
-    return None, n
+                out.append(("C13", ("live-mapper", kind, op[0], "after:" + desc.split(" ")[0].split("(")[0]),
+                            "history %r: the %s changed when step %d %r was applied to the mapper it came from: %r -> %r (now %s)" % (
+                                hist, desc, k, op, f0, f1, str(obj).replace("\n", "; ")[:160])))
+                return out, n
+    return out, n
 
 
 def mapper_shard(args):
-    depth, shard, nshards = args
+    depth, shard, nshards = args[:3]
+    want = args[3] if len(args) > 3 else "C13"
     ops = m_ops()
     fails = []
     stats = {"histories": 0, "invariants": 0}
@@ -415,14 +435,18 @@ def mapper_shard(args):
         for idx, hist in enumerate(itertools.product(ops, repeat=d)):
             if idx % nshards != shard:
                 continue
-            # only histories that obtain something before the last step can violate the invariant
-            if not any(o[0] in ("r", "rm", "copy", "mcopy") for o in hist[:-1]):
+            # only histories that obtain something before the last step (C13) or end with a register write (C12)
+            # can violate an invariant that shorter histories did not already violate
+            if want == "C13" and not any(o[0] in ("r", "rm", "copy", "mcopy") for o in hist[:-1]):
+                continue
+            if want == "C12" and (hist[-1][0] != "w" or any(o[0] != "w" for o in hist)):
                 continue
             stats["histories"] += 1
-            f, n = m_run(list(hist))
+            fl, n = m_run(list(hist))
             stats["invariants"] += n
-            if f:
-                fails.append(Failure(f[0], f[1], {"mapper_history": [list(o) for o in hist]}, rank=d).to_json())
+            for (pid, sig, what) in fl:
+                if pid == want:
+                    fails.append(Failure(sig, what, {"mapper_history": [list(o) for o in hist]}, rank=d).to_json())
     return {"stats": stats, "fails": fails}
 
 
@@ -479,7 +503,7 @@ def run(tier, seed):
 
 def replay(case):
     if "mapper_history" in case:
-        f, _ = m_run([tuple(o) for o in case["mapper_history"]])
-        return [Failure(f[0], f[1], case)] if f else []
+        fl, _ = m_run([tuple(o) for o in case["mapper_history"]])
+        return [Failure(sig, what, case) for (pid, sig, what) in fl if pid == "C13"]
     fl, _, _ = step(case["root"], case["hist"], tuple(case["op"]))
     return [Failure(sig, what, case) for sig, what in fl]
